@@ -291,13 +291,16 @@ func (n *Node) Block(txs [][]byte, o *BlockOpts) *BlockResult {
 	var votes []abci.VoteInfo
 	// the validator set in force is what the application last reported through updates;
 	// the harness keeps it simple: every genesis validator that is still a validator votes
-	for i, v := range n.curValidators() {
-		_ = i
-		votes = append(votes, abci.VoteInfo{Validator: abci.Validator{Address: v.tm[:], Power: 1}, SignedLastBlock: !o.Absent[v.idx]})
+	for _, v := range n.curValidators() {
+		addr := make([]byte, len(v.tm))
+		copy(addr, v.tm[:]) // (go 1.17 loop-variable semantics: never slice the loop variable)
+		votes = append(votes, abci.VoteInfo{Validator: abci.Validator{Address: addr, Power: 1}, SignedLastBlock: !o.Absent[v.idx]})
 	}
 	var ev []abci.Evidence
 	for _, i := range o.Evidence {
-		ev = append(ev, abci.Evidence{Type: abci.EvidenceType_DUPLICATE_VOTE, Validator: abci.Validator{Address: n.Vals[i].TmAdr[:], Power: 1}, Height: h - 1, Time: n.Time})
+		addr := make([]byte, 20)
+		copy(addr, n.Vals[i].TmAdr[:])
+		ev = append(ev, abci.Evidence{Type: abci.EvidenceType_DUPLICATE_VOTE, Validator: abci.Validator{Address: addr, Power: 1}, Height: h - 1, Time: n.Time})
 	}
 	ok := n.guard("BeginBlock", func() {
 		n.App.BeginBlock(abci.RequestBeginBlock{Header: tmproto.Header{Height: h, Time: n.Time, ChainID: "verif"},
